@@ -13,7 +13,7 @@ for extra in os.listdir(src):
     if os.path.isdir(p) and not extra.startswith(".") and extra != "__pycache__":
         shutil.copytree(p, os.path.join(dst, extra), dirs_exist_ok=True,
                         ignore=shutil.ignore_patterns("__pycache__"))
-    elif extra.endswith(".py") and not extra.startswith("demo") and extra != "notes_replay.py":
+    elif extra.endswith(".py") and not (extra.startswith("demo") and extra[4:5].isdigit()) and extra != "notes_replay.py":
         shutil.copy(p, dst)
 m = json.load(open(f"{src}/meta{K}.json"))
 suite = None
